@@ -109,15 +109,21 @@ def run_history(impl, wd, name, crc, ops):
     return d, (out[0] if out else "<none>")
 
 
-def mk_case(src, dst, cut, flips):
+RESET_MARK = bytes([127, 0, 0, 0, 0, 0, 0, 0, 4, 0, 0, 0, 6, 0, 0, 0])   # SEP(crc 0, len 4) + RESET
+
+
+def mk_case(src, dst, cut, flips, reset=None):
+    """reset = (b, dbfile): the file pair a checkpoint taken during an online backup (stages 4-5) leaves when the
+    log was wal[:b]: main file = everything up to b applied, log = wal[:b] + SEP RESET, then the log goes on"""
     os.makedirs(dst, exist_ok=True)
-    wal = bytearray(open(os.path.join(src, "db-wal"), "rb").read()[:cut])
+    raw = open(os.path.join(src, "db-wal"), "rb").read()
+    wal = bytearray(raw[:cut] if not reset else raw[:reset[0]] + RESET_MARK + raw[reset[0]:cut])
     for off, mask in flips:
         if off < len(wal):
             wal[off] ^= mask
     for sub in ("a", "b"):
         os.makedirs(os.path.join(dst, sub), exist_ok=True)
-        shutil.copyfile(os.path.join(src, "db"), os.path.join(dst, sub, "db"))
+        shutil.copyfile(reset[1] if reset else os.path.join(src, "db"), os.path.join(dst, sub, "db"))
         open(os.path.join(dst, sub, "db-wal"), "wb").write(wal)
 
 
@@ -127,9 +133,10 @@ def eval_cases(run, impl, model, wd, hist, cases, tag):
     res = []
     nchunk = max(1, min(vlib.NCPU, len(cases)))
     chunks_m, chunks_i, idx = [[] for _ in range(nchunk)], [[] for _ in range(nchunk)], [[] for _ in range(nchunk)]
-    for ci, (cut, flips) in enumerate(cases):
+    for ci, case in enumerate(cases):
+        cut, flips = case[0], case[1]
         dst = os.path.join(wd, "%s-%s-%d" % (hist["name"], tag, ci))
-        mk_case(src, dst, cut, flips)
+        mk_case(src, dst, cut, flips, reset=hist.get("reset"))
         k = ci % nchunk
         full = (ci % 5 == 0) or any(e == cut for e, _ in hist["sps"]) or (flips and not (crc & 1) and ci % 2 == 0)
         chunks_m[k].append("wal %s/a %d%s" % (dst, crc, "" if full else " ops"))
@@ -217,6 +224,8 @@ def oracle_flip(hist, r):
 
 
 def classify(hist, r, kind):
+    if hist.get("reset"):
+        return "reset-mark"
     if hist["base_class"] == "growth-checkpoint" and (not hist["sps"] or r["cut"] < hist["sps"][0][0]):
         return "growth-checkpoint"
     if kind == "cut":
@@ -226,7 +235,7 @@ def classify(hist, r, kind):
     return "other"
 
 
-def do_history(run, impl, model, wd, name, crc, ops, ncut, nflip, corpus_cases=None):
+def do_history(run, impl, model, wd, name, crc, ops, ncut, nflip, corpus_cases=None, nreset=0):
     rng = run.rng
     d, line = run_history(impl, wd, name, crc, ops)
     tr = W.parse_trace(os.path.join(d, "trace"))
@@ -295,6 +304,45 @@ def do_history(run, impl, model, wd, name, crc, ops, ncut, nflip, corpus_cases=N
                            "impl": r["impl_rec"][:2000], "allowed": allowed,
                            "savepoint_ends": [e for e, _ in sps], "base_class": cls}, why)
     run.cov["traces_validated_against_impl"] += nok
+    # --- logs with a reset mark (a checkpoint taken while an online backup was in stages 4-5 keeps the log and
+    # appends SEP+RESET; if the process then dies before the next truncating checkpoint, open must recover from
+    # the mark): built from the real log at a savepoint end b, main file = the implementation's own recovery of
+    # wal[:b]
+    if corpus_cases is None and len(sps) >= 2 and nreset > 0:
+        for b in sorted(set([sps[rng.below(len(sps))][0], sps[0][0]]))[:2]:
+            pre = os.path.join(wd, "%s-pre%d" % (name, b))
+            os.makedirs(pre, exist_ok=True)
+            shutil.copyfile(os.path.join(d, "db"), os.path.join(pre, "db"))
+            open(os.path.join(pre, "db-wal"), "wb").write(wal[:b])
+            rc, out, err = vlib.run_lines(impl, "wal %s %d\n" % (pre, crc))
+            if not out or W.fields(out[0]).get("rc") != "0":
+                run.broken.append("T2 harness: could not prepare a reset-mark case: %s" % (out[:1],))
+                continue
+            h2 = dict(hist, reset=(b, os.path.join(pre, "db")))
+            later = [p for p, op, sz in frames if p >= b] + [len(wal)]
+            inner = [p + 1 + rng.below(sz - 1) for p, op, sz in frames if p >= b and sz > 1]
+            pts = sorted(set(later)) + sorted(set(inner))
+            for i in range(len(pts) - 1, 0, -1):
+                j = rng.below(i + 1)
+                pts[i], pts[j] = pts[j], pts[i]
+            rcases = [(c, []) for c in sorted(pts[:nreset])]
+            for r in eval_cases(run, impl, model, wd, h2, rcases, "r%d" % b):
+                run.dist("case_reset_mark")
+                run.case("%s|%d|reset%d|%s" % (" ".join(ops), crc, b, r["cut"]), nontrivial=True)
+                t2 = t2_compare(r, crc)
+                if t2 and t2 != "skip":
+                    run.broken.append("T2 correspondence: %s reset@%d cut=%d crc=%d: %s" % (name, b, r["cut"], crc, t2)) if len(run.broken) < 8 else None
+                else:
+                    run.cov["traces_validated_against_impl"] += 1
+                ok, why, allowed = oracle_cut(hist, r)
+                if not ok:
+                    run.cov.setdefault("violations_by_class", {})
+                    run.cov["violations_by_class"]["reset-mark"] = run.cov["violations_by_class"].get("reset-mark", 0) + 1
+                    if run.cov["violations_by_class"]["reset-mark"] <= 2:
+                        run.violation({"ops": ops, "crc": crc, "cut": r["cut"], "flips": [], "reset_at": b, "class": "reset-mark",
+                                       "impl": r["impl_rec"][:2000], "allowed": allowed, "savepoint_ends": [e for e, _ in sps],
+                                       "base_class": cls}, "log with a reset mark at %d: %s" % (b, why))
+            shutil.rmtree(pre, ignore_errors=True)
     shutil.rmtree(d, ignore_errors=True)
 
 
@@ -321,7 +369,7 @@ def check(run):
             pregrow = run.tier == "quick" or run.rng.chance(3, 4)
             ops = gen_history(run.rng, crc, pregrow)
             run.dist("history_crc%d" % crc)
-            do_history(run, impl, model, wd, "h%d" % h, crc, ops, ncut, nflip)
+            do_history(run, impl, model, wd, "h%d" % h, crc, ops, ncut, nflip, nreset=(60 if run.tier == "quick" else 2000))
             if run.broken and len(run.broken) > 20:
                 break
     finally:
@@ -347,6 +395,15 @@ def replay(run, path):
         tr = W.parse_trace(os.path.join(d, "trace"))
         base, cls, sps = savepoints_of(tr, r["ops"])
         hist = {"dir": d, "name": "r", "crc": r["crc"], "ops": r["ops"], "base": base, "base_class": cls, "sps": sps}
+        if r.get("reset_at") is not None:
+            b = r["reset_at"]
+            pre = os.path.join(wd, "pre")
+            os.makedirs(pre)
+            shutil.copyfile(os.path.join(d, "db"), os.path.join(pre, "db"))
+            open(os.path.join(pre, "db-wal"), "wb").write(open(os.path.join(d, "db-wal"), "rb").read()[:b])
+            vlib.run_lines(impl, "wal %s %d\n" % (pre, r["crc"]))
+            hist["reset"] = (b, os.path.join(pre, "db"))
+            print("reset mark (SEP+RESET) inserted at log offset", b, "; main file = recovery of the first", b, "bytes")
         res = eval_cases(run, impl, model, wd, hist, [(r["cut"], [tuple(x) for x in r["flips"]])], "r")[0]
         ok, why = (oracle_cut(hist, res)[:2] if not r["flips"] else oracle_flip(hist, res))
         print("history:", " ".join(r["ops"])); print("checksums/buffer mode:", r["crc"], " cut:", r["cut"], " flips:", r["flips"])
